@@ -474,12 +474,9 @@ class TracksBuilder(ABC):
         node_ids = self.in_memory_geff["node_ids"]
         seg_ids = node_props["seg_id"]["values"]
 
-        # Check if any seg_id differs from node_id
-        if np.array_equal(seg_ids, node_ids):
-            # No relabeling needed
-            return seg_array.compute(), scale
-
-        # Relabel segmentation: seg_id -> node_id
+        # Relabel segmentation: seg_id -> node_id. This also runs when every seg_id
+        # equals its node_id: labels that belong to no node (or sit in another frame
+        # than their node) must become background either way.
         time_values = node_props[NodeAttr.TIME.value]["values"]
         new_segmentation = relabel_segmentation(
             seg_array, graph, node_ids, seg_ids, time_values
